@@ -5,6 +5,7 @@ ordered result unsorted.
 import ast
 
 from ..core import AnalysisError, unparse, qualname, norm_stmt
+from .. import rules_e1 as R
 from ..callgraph import get_callgraph
 from ..facts import get_facts
 
@@ -261,10 +262,24 @@ def run(repo, res):
     # ---- R2 alternatives are position ordered ---------------------------------------------------------
     from .. import api_model
     api_model.apply(res, api_model.multiname_order_model(repo), {'order': 'C17-R2'}, 'supp/name.py', 0)
+    # the alternatives of a join are ordered by location: two bindings one construct makes in parallel regions must differ in it
+    hyg = R.binding_hygiene_records(repo)
+    seen_t = set()
+    for cls, variant, loc, regions, line in hyg['ties']:
+        k = '%s binds in parallel regions at one location' % R.method_name(repo, cls)
+        if k in seen_t:
+            continue
+        seen_t.add(k)
+        res.check('C17-R2', k, False, line[0], line[1],
+                  'on %s shape `%s` bindings registered in the parallel regions %s all carry the location %s: where these regions '
+                  'join, the alternatives of a name bound in several of them tie on the sort key and come out in set (address) order'
+                  % (cls, variant, regions, loc))
+    res.ob('C17-R2', 'parallel bindings of one construct differ in location', not hyg['ties'],
+           sample='%d shape paths: no two parallel regions of a construct bind at the same location' % hyg['n'])
     api_model.apply(res, api_model.declarations_model(repo), {'alts': 'C17-R2'}, 'supp/evaluator.py', 0)
     api_model.apply(res, api_model.location_model(repo), {'pairs': 'C17-R2'}, 'supp/assistant.py', 0)
 
-    from .. import rules_e1 as R
+    pass
     nso = 0
     for cls, r in sorted(R.statement_order_records(repo).items()):
         nso += r['n']
